@@ -161,9 +161,10 @@ fn init_dictionary() -> StandardDataDictionaryRegistry {
     for entry in ENTRIES {
         d.index(entry);
     }
-    // generic group length is not a generated entry,
-    // inserting it manually
+    // generic group length and private creator are not generated entries,
+    // inserting them manually
     d.by_name.insert("GenericGroupLength", &GROUP_LENGTH_ENTRY);
+    d.by_name.insert("PrivateCreator", &PRIVATE_CREATOR_ENTRY);
     d
 }
 
